@@ -194,7 +194,7 @@ func C05(r *drv.Run) {
 	if !quick(r) {
 		n = 80000
 	}
-	r.Rule = "replace commands whose `with` list mixes literal strings, captures whose value differs per match, every built-in (value, matchNumber, startOffset, endOffset, lineNumber, columnNumber, totalMatches, filename), undefined names, named-loop (map valued) names and 0..2 generated transforms reading match, matchLength and captures; texts derived from the body with >= 2 matches where possible. Oracle: (a) the replace run equals the find run of the same body in every field but Replacement; (b) each Replacement equals the concatenation computed from the find-run's match by the harness (transforms through the process-language reference interpreter). Non-trivial = a match whose expected replacement is non-empty and that carries >= 1 variable; distinct by (program, text, match index)."
+	r.Rule = "replace commands whose `with` list mixes literal strings, captures whose value differs per match, every built-in (value, matchNumber, startOffset, endOffset, lineNumber, columnNumber, totalMatches, filename), undefined names, named-loop (map valued) names and 0..2 generated transforms reading match, matchLength and captures; texts derived from the body with >= 2 matches where possible. Oracle: (a) the replace run equals the find run of the same body in every field but Replacement; (b) each Replacement equals the concatenation computed from the find-run's match by the harness (transforms through the process-language reference interpreter). Non-trivial = a match whose expected replacement is non-empty and that carries >= 1 variable; distinct by (program, text)."
 	r.Assumptions = []string{
 		"an absent Replacement and the empty string are the same replacement (a `with` list that names nothing)",
 		"transforms whose evaluation divides by zero are not judged (known finding K1); matchNumber is not used inside transforms",
@@ -274,7 +274,7 @@ func C05(r *drv.Run) {
 					}
 					r.Count("replacements_checked", 1)
 					if exp[k] != "" && a.Vars != nil && len(a.Vars.Map) > 0 {
-						r.Nontrivial(fmt.Sprintf("%s\x00%s\x00%d", cs.repl, text, k))
+						r.Nontrivial(fmt.Sprintf("%s\x00%s", cs.repl, text))
 					}
 					if k > 0 && exp[k] != exp[0] {
 						r.Count("replacement_differs_between_matches", 1)
